@@ -197,7 +197,7 @@ func (setup *SetupServerController) handleKeyExchange(in util.Container) (util.C
 
 	if err != nil {
 		setup.reset()
-		log.Info.Panic(err)
+		log.Info.Println(err)
 		out.SetByte(TagErrCode, ErrCodeUnknown.Byte()) // return error 1
 	} else {
 		decryptedBuf := bytes.NewBuffer(decrypted)
